@@ -332,6 +332,7 @@ func (h *hist) opRefresh0() {
 func (h *hist) opCreatePerm() {
 	c := h.withAlloc()
 	h.actor = c
+	c.MapPeersV6 = h.rng.Intn(10) == 0
 	n := 1
 	if h.rng.Intn(4) == 0 {
 		n = 2 + h.rng.Intn(2)
@@ -370,6 +371,7 @@ func (h *hist) chanNumber(c *sim.RawClient) uint16 {
 func (h *hist) opChanBind() {
 	c := h.withAlloc()
 	h.actor = c
+	c.MapPeersV6 = h.rng.Intn(7) == 0
 	num := h.chanNumber(c)
 	p := h.peerForFamily(c)
 	// prefer re-binding the peer already bound to this number half of the time
@@ -592,6 +594,42 @@ func (h *hist) opCloseTCP() {
 	}
 }
 
+// opLoneSender: one bound peer is the only sender toward a relay before and after its channel
+// binding expires (the permission may outlive it): the encapsulation must follow the binding table
+// at each instant, not what was true for the previous datagram of that sender.
+func (h *hist) opLoneSender() {
+	for _, c := range h.open() {
+		a, st := h.m.Alloc(c)
+		if a == nil || st != sim.Live || a.TCP || len(a.Chans) == 0 || h.rng.Intn(2) == 0 {
+			continue
+		}
+		ch := a.Chans[h.rng.Intn(len(a.Chans))]
+		var sender *sim.Peer
+		for _, p := range append(append([]*sim.Peer{}, h.peers...), h.denied...) {
+			if p.Addr.String() == ch.Peer {
+				sender = p
+			}
+		}
+		if sender == nil || !ch.Exp.After(time.Now().Add(2*time.Second)) {
+			continue
+		}
+		stp := h.m.Begin()
+		stp.PeerSend(sender, a.RelayUDP, h.payload(24))
+		stp.End()
+		if d := time.Until(ch.Exp.Add(time.Second)); d > 0 && ch.Exp.Before(a.Exp.Add(-2*time.Second)) {
+			h.w.Sleep(d)
+			h.m.Audit(nil)
+		}
+		stp = h.m.Begin()
+		stp.PeerSend(sender, a.RelayUDP, h.payload(24))
+		stp.End()
+		h.m.CrossCheck()
+		h.rec.FP("lone-sender-across-channel-expiry")
+
+		return
+	}
+}
+
 // opTCPGarbage sends bytes that cannot begin a frame on a TCP control connection: the server
 // must stop serving that connection and the allocation made on it goes away (C10/C15).
 func (h *hist) opTCPGarbage() {
@@ -650,7 +688,11 @@ func (h *hist) run() {
 		case "data":
 			h.dataStep(1 + h.rng.Intn(6))
 		case "probe":
-			h.opProbeExpiry()
+			if h.rng.Intn(5) == 0 {
+				h.opLoneSender()
+			} else {
+				h.opProbeExpiry()
+			}
 		case "time":
 			h.opTime()
 		case "closetcp":
